@@ -22,9 +22,4 @@ def run(ctx):
 
 
 def replay(ctx, payload):
-    case = payload.get("case") or (payload.get("first_disagreement") or {}).get("case")
-    ev = mc.evaluate_first(case)
-    eqs = mc.compare_with_model(ctx, "replay", [case], [ev])
-    mc.oracle_c02(ctx, "replay", case, ev, eqs[0])
-    return {"impl_error": ev["err"], "post": ev["post"], "impl_eq_model": eqs[0], "oracle_failures": ctx.oracle_failures,
-            "fails": bool(ctx.oracle_failures)}
+    return mc.replay(ctx, payload, mc.oracle_c02)
